@@ -4,6 +4,8 @@ package os
 
 import (
 	"context"
+	"errors"
+	"io/fs"
 	"path/filepath"
 	"strings"
 
@@ -85,6 +87,188 @@ func HarnessC13FindMount() {
 		if m.Target == want {
 			rest := strings.TrimPrefix(full, want)
 			verifrt.Assert(filepath.Clean("/"+rel) == filepath.Clean("/"+rest), "relative-part")
+		}
+	}
+}
+
+// ---- every VirtualOS operation goes to the longest-prefix mount ----
+
+type c13Call struct {
+	mount  string
+	method string
+	paths  []string
+}
+
+// c13RecFS is a mount source that records what it is asked to do.
+type c13RecFS struct {
+	mount string
+	log   *[]c13Call
+}
+
+func (f *c13RecFS) rec(method string, paths ...string) {
+	*f.log = append(*f.log, c13Call{f.mount, method, paths})
+}
+
+var errC13 = errors.New("recording fs")
+
+func (f *c13RecFS) Create(name string) (File, error)          { f.rec("Create", name); return nil, errC13 }
+func (f *c13RecFS) Mkdir(name string, perm FileMode) error    { f.rec("Mkdir", name); return nil }
+func (f *c13RecFS) MkdirAll(path string, perm FileMode) error { f.rec("MkdirAll", path); return nil }
+func (f *c13RecFS) Open(name string) (File, error)            { f.rec("Open", name); return nil, errC13 }
+func (f *c13RecFS) ReadFile(name string) ([]byte, error)      { f.rec("ReadFile", name); return nil, errC13 }
+func (f *c13RecFS) Remove(name string) error                  { f.rec("Remove", name); return nil }
+func (f *c13RecFS) RemoveAll(path string) error               { f.rec("RemoveAll", path); return nil }
+func (f *c13RecFS) Rename(oldpath, newpath string) error {
+	f.rec("Rename", oldpath, newpath)
+	return nil
+}
+func (f *c13RecFS) Stat(name string) (FileInfo, error) { f.rec("Stat", name); return nil, errC13 }
+func (f *c13RecFS) Symlink(oldname, newname string) error {
+	f.rec("Symlink", oldname, newname)
+	return nil
+}
+func (f *c13RecFS) ReadDir(name string) ([]DirEntry, error) {
+	f.rec("ReadDir", name)
+	return nil, errC13
+}
+func (f *c13RecFS) WalkDir(root string, fn WalkDirFunc) error { f.rec("WalkDir", root); return nil }
+func (f *c13RecFS) OpenFile(name string, flag int, perm FileMode) (File, error) {
+	f.rec("OpenFile", name)
+	return nil, errC13
+}
+func (f *c13RecFS) WriteFile(name string, data []byte, perm FileMode) error {
+	f.rec("WriteFile", name)
+	return nil
+}
+
+var c13OpLayouts = [][]string{
+	{"/a", "/b"}, {"/", "/a"}, {"/a", "/a/b"}, {"/a", "/ab", "/"},
+}
+
+// c13Owner: the mount point that must serve path p (relative to cwd), and the
+// part of p below it.
+func c13Owner(layout []string, cwd, p string) (mount, rest string, found bool) {
+	full := p
+	if !filepath.IsAbs(p) {
+		full = filepath.Join(cwd, p)
+	}
+	full = filepath.Clean(full)
+	for _, t := range layout {
+		if t == "/" || full == t || strings.HasPrefix(full, t+"/") {
+			if !found || len(t) > len(mount) {
+				mount, found = t, true
+			}
+		}
+	}
+	if found {
+		rest = strings.TrimPrefix(full, mount)
+	}
+	return
+}
+
+// HarnessC13VirtualOSOperations: whatever the path strings, an operation of the
+// virtual OS reaches only the source of the longest-prefix mount of each of its
+// path arguments, with the path below the mount point; two-path operations
+// whose arguments belong to different mounts, and paths under no mount, reach
+// no source at all.
+func HarnessC13VirtualOSOperations() {
+	layout := c13OpLayouts[verifrt.Choose(len(c13OpLayouts))]
+	cwd := "/a"
+	var log []c13Call
+	mounts := map[string]*Mount{}
+	for _, t := range layout {
+		mounts[t] = &Mount{Target: t, Source: &c13RecFS{mount: t, log: &log}}
+	}
+	vos := NewVirtualOS(context.Background(), WithMounts(mounts), WithCwd(cwd))
+	maxN := 3
+	if verifrt.Thorough() {
+		maxN = 4
+	}
+	p := verifrt.String(verifrt.Choose(maxN + 1))
+	fixed := []string{"/a/x", "/b/y", "/a/b/z", "x", "/ab/q", "/c"}
+	q := fixed[verifrt.Choose(len(fixed))]
+	op := verifrt.Choose(16)
+	var paths []string
+	method := ""
+	switch op {
+	case 0:
+		method, paths = "Create", []string{p}
+		vos.Create(p)
+	case 1:
+		method, paths = "Mkdir", []string{p}
+		vos.Mkdir(p, 0o755)
+	case 2:
+		method, paths = "MkdirAll", []string{p}
+		vos.MkdirAll(p, 0o755)
+	case 3:
+		method, paths = "Open", []string{p}
+		vos.Open(p)
+	case 4:
+		method, paths = "OpenFile", []string{p}
+		vos.OpenFile(p, 0, 0)
+	case 5:
+		method, paths = "ReadFile", []string{p}
+		vos.ReadFile(p)
+	case 6:
+		method, paths = "Remove", []string{p}
+		vos.Remove(p)
+	case 7:
+		method, paths = "RemoveAll", []string{p}
+		vos.RemoveAll(p)
+	case 8:
+		method, paths = "Stat", []string{p}
+		vos.Stat(p)
+	case 9:
+		method, paths = "WriteFile", []string{p}
+		vos.WriteFile(p, []byte("x"), 0o644)
+	case 10:
+		method, paths = "ReadDir", []string{p}
+		vos.ReadDir(p)
+	case 11:
+		method, paths = "WalkDir", []string{p}
+		vos.WalkDir(p, func(path string, d fs.DirEntry, err error) error { return nil })
+	case 12:
+		method, paths = "Rename", []string{p, q}
+		vos.Rename(p, q)
+	case 13:
+		method, paths = "Rename", []string{q, p}
+		vos.Rename(q, p)
+	case 14:
+		method, paths = "Symlink", []string{p, q}
+		vos.Symlink(p, q)
+	case 15:
+		method, paths = "Symlink", []string{q, p}
+		vos.Symlink(q, p)
+	}
+	verifrt.Reach("operated")
+	// reference: owner of every path argument
+	owners := make([]string, len(paths))
+	rests := make([]string, len(paths))
+	allFound := true
+	for i, pp := range paths {
+		var ok bool
+		owners[i], rests[i], ok = c13Owner(layout, cwd, pp)
+		if !ok {
+			allFound = false
+		}
+	}
+	sameMount := allFound
+	for i := range owners {
+		if owners[i] != owners[0] {
+			sameMount = false
+		}
+	}
+	if !sameMount {
+		verifrt.Assert(len(log) == 0, "no-source-is-reached-unless-every-path-has-one-common-mount:"+method)
+		return
+	}
+	verifrt.Reach("served")
+	for _, c := range log {
+		verifrt.Assert(c.mount == owners[0], "served-by-the-longest-prefix-mount:"+method)
+		if c.method == method && len(c.paths) == len(paths) {
+			for i := range paths {
+				verifrt.Assert(filepath.Clean("/"+c.paths[i]) == filepath.Clean("/"+rests[i]), "source-gets-the-path-below-its-mount-point:"+method)
+			}
 		}
 	}
 }
